@@ -105,7 +105,16 @@ func candidates(d *m.Design) []*m.Design {
 			si, mi := si, mi
 			get := func(c *m.Design) *m.Method { return c.Services[si].Methods[mi] }
 			if meth.Result != nil {
-				add(func(c *m.Design) { x := get(c); x.Result = nil; x.ResultView = ""; x.HTTP.Responses = nil })
+				add(func(c *m.Design) {
+					x := get(c)
+					x.Result, x.ResultView = nil, ""
+					if x.HTTP != nil {
+						x.HTTP.Responses = nil
+					}
+					if x.GRPC != nil {
+						x.GRPC.Headers, x.GRPC.Trailers = nil, nil
+					}
+				})
 			}
 			if meth.Payload != nil {
 				add(func(c *m.Design) {
@@ -116,10 +125,19 @@ func candidates(d *m.Design) []*m.Design {
 					if h != nil {
 						h.Path, h.Query, h.Headers, h.Cookies, h.Body, h.MapParams = nil, nil, nil, nil, nil, ""
 					}
+					if x.GRPC != nil {
+						x.GRPC.Metadata = nil
+					}
 				})
 			}
 			if len(meth.Errors) > 0 {
-				add(func(c *m.Design) { x := get(c); x.Errors = nil; x.HTTP.ErrorResp = nil })
+				add(func(c *m.Design) {
+					x := get(c)
+					x.Errors = nil
+					if x.HTTP != nil {
+						x.HTTP.ErrorResp = nil
+					}
+				})
 			}
 			if meth.HTTP != nil {
 				if len(meth.HTTP.Routes) > 1 {
@@ -144,6 +162,12 @@ func candidates(d *m.Design) []*m.Design {
 				if meth.HTTP.Body != nil {
 					add(func(c *m.Design) { get(c).HTTP.Body = nil })
 				}
+			}
+			if meth.GRPC != nil && len(meth.GRPC.Metadata)+len(meth.GRPC.Headers)+len(meth.GRPC.Trailers) > 0 {
+				add(func(c *m.Design) { g := get(c).GRPC; g.Metadata, g.Headers, g.Trailers = nil, nil, nil })
+				add(func(c *m.Design) { get(c).GRPC.Metadata = nil })
+				add(func(c *m.Design) { get(c).GRPC.Headers = nil })
+				add(func(c *m.Design) { get(c).GRPC.Trailers = nil })
 			}
 			if len(meth.Security) > 0 || meth.NoSecurity {
 				add(func(c *m.Design) { x := get(c); x.Security = nil; x.NoSecurity = false; x.Creds = nil })
